@@ -55,6 +55,40 @@ fn clone_shares_state_new_does_not() {
     core::mem::forget(cc);
 }
 
+pub(crate) struct Gen<T>(core::marker::PhantomData<T>);
+impl<T: 'static> MockFn for Gen<T> {
+    type Inputs<'i> = (u8, i8);
+    type OutputKind = crate::output::Owning<u8>;
+    type AnswerFn = dyn Fn(&Unimock, u8, i8) -> u8 + Send + Sync;
+    fn info() -> MockFnInfo {
+        MockFnInfo::new::<Self>()
+    }
+}
+
+/// MockFnInfo (C07, C18): a method's identity is the TypeId of its MockFn type - distinct for distinct types, also for two
+/// instantiations of one generic MockFn - and the two flags that drive the fall-through precedence are exactly what the builder
+/// calls say: `new` sets none, `default_impl()` sets only has_default_impl, `path()` touches neither.
+//@K props=C07,C18 tier=quick label=full feat=nostd fn=MockFnInfo::new,MockFnInfo::default_impl,MockFnInfo::path
+#[kani::proof]
+#[kani::unwind(3)]
+fn mock_fn_info_identity_and_flags() {
+    use core::any::TypeId;
+    let a = MockFnInfo::new::<G8>();
+    let b = GDefault::info();
+    assert!(a.type_id == TypeId::of::<G8>() && b.type_id == TypeId::of::<GDefault>());
+    assert!(a.type_id != b.type_id);
+    assert!(!a.has_default_impl && !a.partial_by_default);
+    assert!(b.has_default_impl && !b.partial_by_default);
+    let d = a.default_impl();
+    assert!(d.has_default_impl && !d.partial_by_default && d.type_id == a.type_id);
+    let p = a.path(&["Trait", "method"]);
+    assert!(!p.has_default_impl && !p.partial_by_default && p.type_id == a.type_id);
+    let g1 = Gen::<u8>::info();
+    let g2 = Gen::<i8>::info();
+    assert!(g1.type_id != g2.type_id && g1.type_id == TypeId::of::<Gen<u8>>());
+    kani::cover!(true);
+}
+
 // NOT COVERED (measured 2026-09-27): eval::eval's continuation mapping (Unmock / CallDefaultImpl / Err handed to the generated
 // code with the inputs unchanged).  Harnesses calling the generic eval::eval::<F> on an empty mock ran > 900 s with
 // Unimock::new(()) and ran out of memory (62 GB) with a struct-literal mock; removed.  The decision itself is under contract
